@@ -29,6 +29,7 @@ func init() {
 			{ID: "C11.6", Desc: "synthesised 504 carries BYPASS, no legacy marker", Run: ruleC11_6, MinSites: 1},
 			{ID: "C11.7", Desc: "single-valued: Set, not Add", Run: ruleC11_7, MinSites: 2},
 			{ID: "C11.8", Desc: "the status is applied after every other header write of the exchange", Run: ruleC11_8, MinSites: 3},
+			{ID: "C11.9", Desc: "a missing or invalid Date is repaired for every origin response, with the UTC time (the Age emitted later is computed from it)", Run: func(c *Ctx) { ruleDateRepair(c, "C11.9") }, MinSites: 1},
 		},
 	})
 }
